@@ -66,6 +66,7 @@ struct GenOpts {
     bool per_step_kws = false;              // C04 exception clauses: global / connection WPIMULT (power-of-two factors) and connection-level WELOPEN in ACTIONX bodies; connection-level WELOPEN in later blocks
     bool frac_dates = false;                // ACTIONX date comparisons with a non-integer right-hand side (DAY > 15.5, YEAR < 2025.25, MNTH = 4.3)
     bool wecon_full = false;                // WECON records also set min gas rate, max GOR, max WGR and the workover procedure
+    bool gconinje = false;                  // GCONINJE (water / gas; RATE and RESV limits) on a group below FIELD, in block 0 and sometimes again later
     bool tuning_vfp = false;                // NEXTSTEP in ACTIONX bodies and later blocks; a VFPPROD table in block 0 that later blocks define again
     bool family_snippets = false;           // later blocks carry complete keywords of further families (group controls, gas lift, guide rates, RFT, well lists, VFPINJ, TUNING, RPTRST ...)
     bool family_static_free = false;        // leave out the families from whose mere presence the library infers run-wide configuration (LIFTOPT -> ALQ meaning of VFPPROD tables, GRUPNET -> network active): C03
